@@ -575,7 +575,7 @@ class Recorder:
         self.real = se._e
         self.lock = se._rwlock
         self.touches = []           # (call key, attr, writer_active, active_readers)
-        self.events = []            # [kind, t, i]  0 invoke / 1 first touch / 2 returned
+        self.events = []            # [kind, t, i]  0 invoke / 1 first touch / 9 lock released / 2 returned
         self.cur = threading.local()
         self.entered = set()
         self.bracket = bracket
@@ -609,7 +609,10 @@ class Recorder:
             if rec.bracket and "release" in name:
                 rec.segments.append(("before " + name, rec.lock_state(), jd(snapshot(rec.real))))
             r = f(*a, **k)
-            if "release" not in name:
+            if "release" in name:
+                if rec.key() is not None:
+                    rec.events.append([9, rec.key()[0], rec.key()[1]])      # the call's lock is released HERE
+            else:
                 rec.acq.setdefault(rec.key(), []).append(name)
                 if rec.bracket:
                     rec.segments.append(("after " + name, rec.lock_state(), jd(snapshot(rec.real))))
@@ -907,7 +910,8 @@ class SyncedRun:
 
     def run(self, choose):
         res = self.ctl.run([self.body(p) for p in self.progs], choose)
-        res.events = [list(e) for e in self.rec.events]
+        res.raw_events = [list(e) for e in self.rec.events]
+        res.events = monitor_events(res.raw_events)
         res.yields, res.preempt = self.yields, self.preempt
         res.rets = dict(self.rets)
         res.touches = list(self.rec.touches)
@@ -919,6 +923,31 @@ class SyncedRun:
 
 def in_casbin(filename):
     return "/casbin/" in filename
+
+
+def monitor_events(events):
+    """the events as the machine sees them: a call leaves its section when it releases its lock for the LAST time
+    (kind 9), not when the wrapper's return is observed (kind 2) - the two differ only when the thread is preempted
+    between release and return; a call that never released a lock leaves at its return"""
+    last_rel = {}
+    for n, (k, t, i) in enumerate(events):
+        if k == 9:
+            last_rel[(t, i)] = n
+    out = []
+    for n, (k, t, i) in enumerate(events):
+        if k == 9:
+            if last_rel[(t, i)] == n:
+                out.append([2, t, i])
+        elif k == 2:
+            if (t, i) not in last_rel:
+                out.append([2, t, i])
+        else:
+            out.append([k, t, i])
+    return out
+
+
+def realtime_events(events):
+    return [e for e in events if e[0] != 9]
 
 
 def names_of(progs):
@@ -953,6 +982,9 @@ class SeqOutcomes:
         return self.memo[k]
 
 
+READERS_RACE = "C17/readers-race-on-memoising-caches"
+
+
 class ConcJudge:
     def __init__(self, chk, tabs):
         self.chk, self.tabs = chk, tabs
@@ -967,9 +999,22 @@ class ConcJudge:
         if len(self.pending) >= 1500:
             self.flush()
 
+    def finding_for(self, what, progs, res):
+        """fingerprint of the listed finding: a run preempted BELOW the lock level in which every call is a reading /
+        stateless one (so all of them legitimately share the read lock) and yet the outcome is not sequential"""
+        if getattr(res, "preempt", None) and (what.startswith("outcome") or what.startswith("run ended")) \
+                and all(self.tabs.cls(c["m"]) in ("read", "pure") for p in progs for c in p):
+            return READERS_RACE
+        return None
+
     def fail(self, what, kind, progs, res, impl, expected):
         size = (sum(len(p) for p in progs), len(progs), len(res.schedule))
+        fid = self.finding_for(what, progs, res)
+        if fid is not None:
+            what = "known " + fid + ": " + what
         key = what.split(" takes a too weak lock")[0][:80] if what.startswith("lock discipline") else what.split(":")[0][:60]
+        if fid is not None:
+            key = "known " + fid
         if key not in self.fails or size < self.fails[key][0]:
             case = dict(check="schedule", kind=kind, progs=progs, schedule=list(res.schedule), events=describe(progs, res.events),
                         yields=getattr(res, "yields", True), preempt=getattr(res, "preempt", None))
@@ -983,7 +1028,7 @@ class ConcJudge:
         reqs = []
         for kind, progs, res, seq, label in pend:
             reqs.append((3, [names_of(progs), res.events]))
-            reqs.append((4, [[len(p) for p in progs], precedence(res.events)]))
+            reqs.append((4, [[len(p) for p in progs], precedence(realtime_events(res.raw_events))]))
         reps = chk.oracle.query(reqs)
         for n, (kind, progs, res, seq, label) in enumerate(pend):
             mon, orders = reps[2 * n], reps[2 * n + 1]
@@ -1039,7 +1084,7 @@ class ConcJudge:
         self.flush()
         for key in sorted(self.fails, key=lambda k: (0 if k.startswith("outcome") else 1, k)):
             _, case, impl, exp, what = self.fails[key]
-            self.chk.spec_fail(case, impl, exp, what)
+            self.chk.spec_fail(case, impl, exp, what, finding=READERS_RACE if key == "known " + READERS_RACE else None)
         self.fails = {}
 
 
@@ -1068,7 +1113,7 @@ def describe(progs, events):
             continue
         k, t, i = e
         m = progs[t][i]["m"] if t < len(progs) and i < len(progs[t]) else "?"
-        out.append(f"t{t} {['invokes', 'enters', 'returns from'][k]} {m}#{i}")
+        out.append(f"t{t} {['invokes', 'enters', 'leaves'][k]} {m}#{i}")
     return out
 
 
@@ -1238,6 +1283,9 @@ PREEMPT_PAIRS = [
 ]
 
 
+LISTED_PAIR = PREEMPT_PAIRS[2]
+
+
 def preemption_stratum(chk, judge, tabs, lines, deadline, stats, max_k):
     """every schedule with ONE preemption at function-call (thorough: source-line) granularity inside casbin/:
     thread a runs k scheduling points, the other thread runs to completion (or until it blocks), a finishes.
@@ -1260,6 +1308,18 @@ def preemption_stratum(chk, judge, tabs, lines, deadline, stats, max_k):
             if res.status == "hang" or time.time() > deadline:
                 d["cut_by_budget"] += 1
                 break
+    if not lines:
+        # the listed finding needs source-line granularity: replay its pair at that granularity on every run
+        kind, progs = LISTED_PAIR
+        seq = SeqOutcomes(kind, progs)
+        n = 0
+        for a, k, res in sched.one_preemption_schedules(
+                lambda ch: SyncedRun(kind, progs, yields=False, preempt="line").run(ch), n_threads=2, max_k=1500):
+            judge.add(kind, progs, res, seq, "preempt")
+            n += 1
+            if res.status == "hang" or time.time() > deadline + 20:
+                break
+        d["listed_pair_line_granularity_runs"] = n
 
 
 # ----------------------------------------------------------------------------- replay
@@ -1405,7 +1465,8 @@ def main():
         "a call is abstracted as a section of micro steps on one shared state between Enter (lock obtained) and Exit "
         "(lock released); what a method reads/writes is given by the hand classification Synced.api_table, validated "
         "dynamically (deep snapshots) but not proved from the method bodies",
-        "memoising reads inside read sections are ASSUMED to commute: RoleManager._get_role entries (all_roles), "
+        "memoising reads inside read sections are ASSUMED to commute in the proved part (the one-preemption stratum shows "
+        "they do not always: listed finding C17/readers-race-on-memoising-caches): RoleManager._get_role entries (all_roles), "
         "DomainManager.rm_map / all_links[domain] = [] entries, Assertion.field_index_map entries written by "
         "Model.get_field_index, the `g` closures and the python container types (dict/list/set/tuple, added by "
         "SimpleEval) that enforce() stores in the shared function map; snapshots normalise them away",
